@@ -1,6 +1,8 @@
 package c18
 
 import (
+	"os"
+	"runtime/pprof"
 	"time"
 
 	"verif/harness/mc"
@@ -35,6 +37,11 @@ func oracleVariant() Variant {
 func withStats(p mc.Part, v Variant, alphabet string) mc.Part {
 	run := p.Run
 	p.Run = func(tier string, known []mc.KnownFinding, dl time.Time) mc.PartReport {
+		if pf := os.Getenv("VERIF_C18_PROF"); pf != "" {
+			f, _ := os.Create(pf + "." + v.Name)
+			pprof.StartCPUProfile(f)
+			defer pprof.StopCPUProfile()
+		}
 		rep := run(tier, known, dl)
 		if rep.Bounds == nil {
 			rep.Bounds = map[string]interface{}{}
